@@ -67,7 +67,7 @@ Section Graph.
     eexists. exists ds, wt. split; [reflexivity|]. split; [reflexivity|]. split; [reflexivity|].
     assert (Hk0 : up_kid0 0 1 (lo_dirs lo)).
     { unfold lo. rewrite up_lo_dirs. exact (up_bfs_kid0 _ 0%nat (ps + 2) [([], ps + 2, ut_children t)]). }
-    apply (ug_dirs_spec lo (lo_dirs lo) 0%nat [0%nat] 1%nat [] ds wt).
+    apply (up_ug_dirs_spec lo (lo_dirs lo) 0%nat [0%nat] 1%nat [] ds wt).
     - apply Forall_forall. intros r Hr. exact (up_tags_length r Hr).
     - exact Hk0.
     - apply (up_kid0_bound (length (lo_dirs lo)) (lo_dirs lo) 0%nat 1%nat Hk0); [|lia].
